@@ -25,10 +25,10 @@ EXPLANATION = (
 RULES = {
     'R1': 'every range scan of UtxoSet.address_utxos filters decoded.address == queried address',
     'R2': 'provenance of Utxo.height in AddressUtxoSet (not OutPointsCache::get_tx_out(..).1)',
-    'R3': 'WRITERS of the stable stores; CALLERS of remove_inputs / insert_utxo',
+    'R3': 'WRITERS of the stable stores; CALLERS of remove_inputs / insert_utxo; three-tier UTXO store: insert/get/remove agree on the tiers and the size bounds',
     'R4': 'co-location of index / balance / delta writes; unconditional UTXO write',
-    'R5': 'attribution sites use Address::from_script with the set\'s network',
-    'R6': 'encoder of Height vs Ord for Utxo; scan bounds',
+    'R5': 'attribution sites use Address::from_script with the set\'s network; Address text = to_string() of a parsed bitcoin address; from_script passes the library answer through',
+    'R6': 'encoder of Height vs Ord for Utxo; scan bounds; Ord for Utxo as a lexicographic chain; MultiIter merge table; order agreement with the index key (= C06.R7)',
     'R7': 'every admitted block is applied, coupled with the tip label (= C04.R2/R4)',
     'R8': 'spent filter on both sources; apply_block records removed and added outpoints',
     'R9': 'lookup order of spent outputs when an unstable block is cached: unstable cache, same block, stable set (reverting accessor)',
